@@ -2,7 +2,7 @@
 two documents have the same verdict; here the CODE is run on both sides of each identity, for the JSON and the
 CBOR validator, and the verdicts must agree. Known findings are classified by lib/sem/zones.py on the
 AST-level part of the case; everything else is a violation."""
-import copy, itertools, json, random
+import copy, itertools, json, random, re
 from .. import common
 from ..common import Result
 from . import ast, gen, runner, zones
@@ -520,7 +520,7 @@ def run_c08(prop, prop_file, tier, seed):
                 if k8 in kf8 and c08_zone(kind, S, text2, d, mode, a, b):
                     known_hits[k8] = known_hits.get(k8, 0) + 1
                     res.known(kf8[k8])
-                elif "kf-c08-parenthesised-control-target" in kf8 and kind == "parens" and V(a) == "T" and "target for ." in b and " must " in b:
+                elif "kf-c08-parenthesised-control-target" in kf8 and kind == "parens" and parens_ctl_zone(S, text2):
                     known_hits["kf-c08-parenthesised-control-target"] = known_hits.get("kf-c08-parenthesised-control-target", 0) + 1
                 elif zs:
                     kid = sorted(zs)[0]
@@ -544,6 +544,40 @@ def run_c08(prop, prop_file, tier, seed):
     })
     res.assumptions = ["transparency of naming and rule order are theorems over Sem.v (Props/C08.v); generics, sockets and parentheses are checked on the code only"]
     return res.finish()
+
+
+_CMP_OPS = ("lt", "le", "gt", "ge", "size", "eq", "ne")
+_PAREN_TGT = re.compile(r"\)\s*\.(lt|le|gt|ge|size|eq|ne)\b")
+
+
+def _wholly_parenthesised(body):
+    body = body.strip()
+    if not (body.startswith("(") and body.endswith(")")):
+        return False
+    depth = 0
+    for i, ch in enumerate(body):
+        if ch == "(":
+            depth += 1
+        elif ch == ")":
+            depth -= 1
+            if depth == 0 and i != len(body) - 1:
+                return False
+    return True
+
+
+def parens_ctl_zone(S, text2):
+    """narrow, syntactic classifier of kf-c08-parenthesised-control-target: the added parentheses are directly the target of a
+    comparison / .size control, or they wrap the whole body of a rule that is referenced as the target of such a control"""
+    t1 = S.cddl()
+    if len(_PAREN_TGT.findall(text2)) > len(_PAREN_TGT.findall(t1)):
+        return True
+    tgt = {t[2][1] for t, _ in zones.all_types(S) if t[0] == "ctl" and t[1] in _CMP_OPS and t[2][0] == "ref"}
+    for l1, l2 in zip(t1.split("\n"), text2.split("\n")):
+        if l1 != l2 and "=" in l2:
+            nm, body = l2.split("=", 1)
+            if nm.strip() in tgt and _wholly_parenthesised(body):
+                return True
+    return False
 
 
 def c08_zone(kind, S, text2, d, mode, a, b):
